@@ -49,7 +49,7 @@ Projected(p, ra) ==
 AltInstance(p) ==
     [name |-> p.alt.name, L |-> p.alt.L, kind |-> p.alt.kind,
      params |-> [x \in 1..Len(p.alt.pnames) |-> <<p.alt.pnames[x], Projected(p, p.alt.pnames[x])>>],
-     pi |-> p.null.pi, reversible |-> p.alt.reversible, stationary |-> p.alt.stationary, tag |-> "projected"]
+     pi |-> p.null.pi, reversible |-> p.alt.reversible, stationary |-> p.alt.stationary, tag |-> "projected", gc |-> p.null.gc]
 
 NInit == k = 1 /\ r = [qn |-> Compute(Pairs[1].null), qa |-> Compute(AltInstance(Pairs[1]))]
 NStepT == /\ k <= Len(Pairs) /\ k' = k + 1
